@@ -92,8 +92,11 @@ VStep(rec) ==
         ed == IF rec.unids.out = "ok" THEN DatasetErr(rec.unids.obs, E) ELSE "unified-dataset-fails"
         es == SubsErr(rec.subs, R, E, 1)
         new == ModelAfter(rec)
+        \* Ranking objects obtained from the dataset before earlier calls of the session, observed again now
+        eh == FirstErr(rec.held, E, 1)
     IN IF rec.alive # 1 THEN <<"skip", "no-object">>
        ELSE IF e0 # "ok" THEN <<"viol", "C16:" \o e0>>
+       ELSE IF eh # "ok" THEN <<"viol", "C16:ranking-obtained-before-the-call-" \o eh>>
        ELSE IF eu # "ok" THEN <<"viol", "C16:unified-rankings-" \o eu>>
        ELSE IF UR # UnifiedDS(R) THEN <<"viol", "C16:unification">>
        ELSE IF ed # "ok" THEN <<"viol", "C16:unified-dataset-" \o ed>>
